@@ -127,20 +127,30 @@ func (l *limitListener) decrement() {
 func (l *limitListener) Close() (err error) {
 	defer func() { err = errors.Annotate(err, "limit listener: %w") }()
 
+	if l.markClosed() {
+		return net.ErrClosed
+	}
+
+	// Close the underlying listener without holding the lock, since it is
+	// shared by all listeners of the limiter and the underlying listener may
+	// block on locks of its own.
+	return l.Listener.Close()
+}
+
+// markClosed marks the listener as closed and broadcasts the change to the
+// goroutines waiting for an accept.  wasClosed is true if the listener has
+// already been closed.
+func (l *limitListener) markClosed() (wasClosed bool) {
 	l.counterCond.L.Lock()
 	defer l.counterCond.L.Unlock()
 
 	if l.isClosed {
-		return net.ErrClosed
+		return true
 	}
-
-	// Close the listener immediately; change the boolean and broadcast the
-	// change later.
-	err = l.Listener.Close()
 
 	l.isClosed = true
 
 	l.counterCond.Broadcast()
 
-	return err
+	return false
 }
